@@ -33,6 +33,9 @@ def split_matrix_svd(A, q0, q1, tol):
     assert len(q1) == A.shape[1]
     assert is_qsparse(A, [q0, -q1])
 
+    # factors of a matrix with integer entries have floating-point entries
+    dtype = A.dtype if np.issubdtype(A.dtype, np.inexact) else np.float64
+
     # find common quantum numbers
     qis = np.intersect1d(q0, q1)
 
@@ -40,8 +43,8 @@ def split_matrix_svd(A, q0, q1, tol):
         assert np.linalg.norm(A) == 0
         # special case: no common quantum numbers;
         # use dummy intermediate dimension 1
-        u = np.zeros((A.shape[0], 1), dtype=A.dtype)
-        v = np.zeros((1, A.shape[1]), dtype=A.dtype)
+        u = np.zeros((A.shape[0], 1), dtype=dtype)
+        v = np.zeros((1, A.shape[1]), dtype=dtype)
         s = np.zeros(1)
         # single column of 'u' should have norm 1
         if A.shape[0] > 0:
@@ -76,8 +79,8 @@ def split_matrix_svd(A, q0, q1, tol):
 
     # allocate memory for U and V matrices, singular values and
     # corresponding intermediate quantum numbers
-    u = np.zeros((A.shape[0], max_interm_dim), dtype=A.dtype)
-    v = np.zeros((max_interm_dim, A.shape[1]), dtype=A.dtype)
+    u = np.zeros((A.shape[0], max_interm_dim), dtype=dtype)
+    v = np.zeros((max_interm_dim, A.shape[1]), dtype=dtype)
     s = np.zeros(max_interm_dim)
     q = np.zeros(max_interm_dim, dtype=q0.dtype)
 
@@ -137,6 +140,9 @@ def qr(A, q0, q1):
     assert len(q1) == A.shape[1]
     assert is_qsparse(A, [q0, -q1])
 
+    # factors of a matrix with integer entries have floating-point entries
+    dtype = A.dtype if np.issubdtype(A.dtype, np.inexact) else np.float64
+
     # find common quantum numbers
     qis = np.intersect1d(q0, q1)
 
@@ -144,8 +150,8 @@ def qr(A, q0, q1):
         assert np.linalg.norm(A) == 0
         # special case: no common quantum numbers;
         # use dummy intermediate dimension 1 with all entries in 'R' set to zero
-        Q = np.zeros((A.shape[0], 1), dtype=A.dtype)
-        R = np.zeros((1, A.shape[1]), dtype=A.dtype)
+        Q = np.zeros((A.shape[0], 1), dtype=dtype)
+        R = np.zeros((1, A.shape[1]), dtype=dtype)
         # single column of 'Q' should have norm 1
         Q[0, 0] = 1
         # ensure non-zero entry in 'Q' formally matches quantum numbers
@@ -175,8 +181,8 @@ def qr(A, q0, q1):
     # keep track of intermediate dimension
     D = 0
 
-    Q = np.zeros((A.shape[0], max_interm_dim), dtype=A.dtype)
-    R = np.zeros((max_interm_dim, A.shape[1]), dtype=A.dtype)
+    Q = np.zeros((A.shape[0], max_interm_dim), dtype=dtype)
+    R = np.zeros((max_interm_dim, A.shape[1]), dtype=dtype)
 
     # corresponding intermediate quantum numbers
     qinterm = np.zeros(max_interm_dim, dtype=q0.dtype)
